@@ -631,6 +631,10 @@ uint256 Instance::calc_sighash() {
     txdata = PrecomputedTransactionData();
     txdata.Init(*tx.get(), std::move(spent_outputs), has_preamble);
     if (sigver == SigVersion::BASE) sigver = SigVersion::TAPROOT;
+    if (sigver != SigVersion::TAPROOT && sigver != SigVersion::TAPSCRIPT) {
+        fprintf(stderr, "error: the output being spent is not a taproot output (a schnorr signature hash exists for taproot key and script paths only)\n");
+        exit(1);
+    }
     // bool ret = SignatureHashSchnorr(sighash, execdata, *txTo, nIn, hashtype, sigversion, this->txdata);
     if (!SignatureHashSchnorr(hash, execdata, *tx, txin_index, 0x00, sigver, txdata, MissingDataBehavior::FAIL)) {
         fprintf(stderr, "Failed to generate schnorr signature hash!\n");
